@@ -53,9 +53,14 @@ Decided:
   R20.k  (c20_files.py) outside a catch-all the entries of the monitored-file list are only handled by operations that
          are total on strings (taint list -> entry, followed into the functions of the module; a finite table of library
          operations known to raise for some names).
+  R20.m  (c20_walks.py) a failure while the frames are collected loses the exception type and message too (one guarded
+         call returns both): no walk of the parser over the lines reads a position that lies beyond the list in its last
+         step whatever the length (a look-ahead of at least the walk's stride that no path condition bounds).
 Declined: "answers 200 for every text" over non-text inputs; which traceback texts the parser recognises (C20a-1: the
-predicate on the part before the colon); arithmetic of the frame pairing loop (the page shows no frame); which files the
-failsafe waits on; environments (only ImportError of function-level imports is judged).
+predicate on the part before the colon); whether the frame lines come in whole File / source records (a look-ahead
+*inside* the record a step owns is out of range only for a last record cut short -- the pairing loop of the pinned tree
+is of that form and does fail there: a finding, not a judgement, see c20_walks.py); which files the failsafe waits on;
+environments (only ImportError of function-level imports is judged).
 
 The constructs are located by role: the Application(...) call create_app returns, its routes / resources /
 render_factory arguments followed through single-assignment locals, module-level constants, expression functions,
@@ -2807,9 +2812,11 @@ def run(rep):
                'R20.f the exception line is searched from the end of the text and the search covers the last line; '
                'R20.g the child\'s stderr reaches the hook as the error text; R20.h the failsafe server is served and taken down; '
                'R20.i no code named at run time; R20.j function-level imports cannot stop the construction; '
-               'R20.k file names are handled by total string operations only')
+               'R20.k file names are handled by total string operations only; '
+               'R20.m no walk of the parser reads beyond the list in its last step whatever the length')
     rep.decline('totality over non-text inputs (bytes/None through ashes); coverage of traceback grammars (which strings count as '
-                'the exception line: value-level, C20a-1); index arithmetic of the frame pairing loop (no frame is shown on the page)')
+                'the exception line: value-level, C20a-1); whether the frame lines come in whole File/source records (a look-ahead inside '
+                'the record a step of the walk owns fails only for a last record cut short; the pinned pairing loop has that form)')
     rep.assume('ashes 19.2.0 filter semantics as read from the pinned source (apply_filters)')
     fs = _Failsafe(repo)
     repo.mod('clastic.server')
@@ -2826,6 +2833,8 @@ def run(rep):
     _group(rep, _parsed_branch, rep, fs)
     _group(rep, _parsed_reaches_section, rep, fs)
     _group(rep, _exception_line_from_end, rep, fs)
+    from . import c20_walks
+    _group(rep, c20_walks.walks_stay_in_the_list, rep, fs)
     _group(rep, _launcher_handover, rep, fs)
     from . import c20_launcher
     _group(rep, c20_launcher.stderr_to_hook, rep, fs)
